@@ -8,31 +8,27 @@ fn any_pow2_size() -> u32 {
     1u32 << k
 }
 
-//@h props=C01,C03,C15 tier=quick timeout=300 role=frame-window-step
-//@fn ReceiveWindow::{contains, advance}, FrameAckQueue::{mark_seen, window_contains, base_id}
-//@bound one step from ANY window state (base any u32, size any 2^k <= 8192) with an ack-group queue of 0 or 1 entries (fields any); frame id and nonce any
-#[kani::proof]
-#[kani::unwind(3)]
-fn o1_2_frame_window_step_inductive() {
+fn window_step(has_entry: bool) {
     let base: u32 = kani::any();
     let size = any_pow2_size();
     let mut q = FrameAckQueue::new(size, base);
-    let has_entry: bool = kani::any();
     let e0 = frame::AckGroup { base_id: kani::any(), bitfield: kani::any(), nonce: kani::any() };
     if has_entry {
         // representation invariant of a queued group: its base bit is set (pop() debug-asserts it)
         kani::assume(e0.bitfield & 1 != 0);
         q.entries.push_back(e0.clone());
     }
+    let n0 = has_entry as usize;
     let id: u32 = kani::any();
     let nonce: bool = kani::any();
     let accepted = q.window_contains(id);
     assert!(accepted == (id.wrapping_sub(base) < size));
     q.mark_seen(id, nonce);
     let nb = q.base_id();
+    let n = q.entries.len();
     if !accepted {
-        assert!(nb == base && q.entries.len() == has_entry as usize, "[C01,C03] a frame outside the window changes nothing");
-        if has_entry { assert!(q.entries[0] == e0); }
+        assert!(nb == base && n == n0, "[C01,C03] a frame outside the window changes nothing");
+        if has_entry { assert!(*q.entries.front().unwrap() == e0); }
     } else {
         assert!(nb == id.wrapping_add(1), "[C01] window base moves past the accepted frame");
         assert!(nb.wrapping_sub(base) >= 1 && nb.wrapping_sub(base) <= size, "[C01,C03] base moves forward by at most the window size");
@@ -41,27 +37,42 @@ fn o1_2_frame_window_step_inductive() {
         if other.wrapping_sub(base) <= id.wrapping_sub(base) {
             assert!(!q.window_contains(other), "[C01] a frame is processed at most once and never after a later one");
         }
-        // the acknowledgement owed for this frame is recorded: either merged into the last group or as a new group
-        let n = q.entries.len();
-        assert!(n >= 1 && n <= has_entry as usize + 1);
-        let last = &q.entries[n - 1];
+        // the acknowledgement owed for this frame is recorded: merged into the last group or as a new group
+        assert!(n >= 1 && n <= n0 + 1);
+        let last = q.entries.back().unwrap();
         let bit = id.wrapping_sub(last.base_id);
         assert!(bit < 32 && last.bitfield & (1 << bit) != 0, "[C15] the accepted frame is covered by the last ack group");
-        if n == has_entry as usize + 1 {
+        if n == n0 + 1 {
             assert!(last.base_id == id && last.bitfield == 1 && last.nonce == nonce, "[C15] a fresh group carries exactly this frame's nonce");
-            if has_entry { assert!(q.entries[0] == e0); }
+            if has_entry { assert!(*q.entries.front().unwrap() == e0); }
         } else {
             let was_set = e0.bitfield & (1 << bit) != 0;
             assert!(last.base_id == e0.base_id);
-            assert!(last.nonce == (e0.nonce ^ (nonce && !was_set)) , "[C15] group nonce is the XOR of the nonces of the frames it newly covers");
+            assert!(last.nonce == (e0.nonce ^ (nonce && !was_set)), "[C15] group nonce is the XOR of the nonces of the frames it newly covers");
             assert!(last.bitfield == e0.bitfield | (1 << bit));
         }
     }
     kani::cover!(accepted && id < base, "accepted across the 2^32 wrap");
-    kani::cover!(accepted && has_entry && q.entries.len() == 1, "merged into an existing group");
-    kani::cover!(accepted && has_entry && q.entries.len() == 2, "opened a new group");
+    if has_entry {
+        kani::cover!(accepted && n == 1, "merged into an existing group");
+        kani::cover!(accepted && n == 2, "opened a new group");
+    }
     std::mem::forget(q);
 }
+
+//@h props=C01,C03,C15 tier=quick timeout=600 role=frame-window-step
+//@fn ReceiveWindow::{contains, advance}, FrameAckQueue::{mark_seen, window_contains, base_id}
+//@bound one step from ANY window state (base any u32, size any 2^k <= 8192), empty ack-group queue; frame id and nonce any
+#[kani::proof]
+#[kani::unwind(3)]
+fn o1_2_frame_window_step_empty_queue() { window_step(false); }
+
+//@h props=C01,C03,C15 tier=quick timeout=600 role=frame-window-step
+//@fn ReceiveWindow::{contains, advance}, FrameAckQueue::{mark_seen, window_contains, base_id}
+//@bound one step from ANY window state (base any u32, size any 2^k <= 8192) with one queued ack group (fields any, base bit set); frame id and nonce any
+#[kani::proof]
+#[kani::unwind(3)]
+fn o1_2_frame_window_step_one_group() { window_step(true); }
 
 //@h props=C11,C03,C01 tier=quick timeout=300 role=frame-window-resync
 //@fn FrameAckQueue::resynchronize, ReceiveWindow::advance
